@@ -7,6 +7,8 @@ import importlib
 MODULES = ['util', 'inputfile', 'contextdb', 'tokenizer', 'collector', 'walker', 'visitor', 'parsingstate', 'encoder', 'enctables', 'parsers', 'latex2text', 'mathmode', 'delimited', 'structure', 'legacy', 'purity', 'nodesplit', 'resources']
 REPLAYERS = {}
 EXTRA_ASSUMPTIONS = {}
+# properties stated for strict parsing only: decided on the strict paths of the (shared) units
+STRICT_ONLY = ('C05',)
 # evidence level per property when it is not 'proof' (bounded stand-ins are never counted as proved)
 LEVELS = {'C18': 'exploration'}
 
